@@ -3,6 +3,7 @@ package main
 import (
 	"fmt"
 	"path/filepath"
+	"strings"
 )
 
 // RlpConsts: prefix constants, maxInt32, and the guards of encodeBytes / decode translated to Lean.
@@ -35,6 +36,14 @@ func genRlp() *leanFile {
 	} else {
 		l.failed = append(l.failed, "encodeBytes")
 		l.raw("def encSingle (len b0 : Nat) (isList : Bool) : Bool := extraction_failed_encodeBytes\n")
+	}
+	// decode: the recursive decoder takes the data and an element limit, nothing else (no depth or size budget)
+	if fd := p.funcDecl("decode"); fd != nil {
+		sig := strings.Join(strings.Fields(p.src(fd.Type)), " ")
+		fmt.Fprintf(&l.sb, "/-- decode's signature is `func(rlpData []byte, limit int) (List, int, error)`; found `%s` -/\ndef decodeShape : Bool := %v\n", sig,
+			sig == "func(rlpData []byte, limit int) (List, int, error)")
+	} else {
+		l.raw("def decodeShape : Bool := extraction_failed_decode\n")
 	}
 	// decode: the six-way switch on prefix
 	if fd := p.funcDecl("decode"); fd != nil {
